@@ -25,7 +25,7 @@ func init() {
 // A commit assigns a kind to "a" (- 1 2 x l) and a shape to "d":
 // '-' absent, 'F' file d="one\n", 'D' dir with d/g="one\n", 'E' dir with d/g="two\n".
 const (
-	c25A = "-12xl"
+	c25A = "-12xle"
 	c25D = "-FDE"
 )
 
@@ -373,7 +373,7 @@ func runC25(c *fw.Ctx) {
 	c.Bound("entries", c25Entry)
 	c.Bound("cases", n)
 	c.Bound("git_conformance_every", confEvery)
-	c.SetRule("all ordered pairs of 20 commits (quick: 12, without the second content of a and of d/g) over path a (absent/2 contents/exec/symlink) and d (absent/file/dir with 2 contents: file<->dir swaps) x 7 pre-existing worktree states x 4 entry points; after a successful op: HEAD (symbolic target and commit), bytes/exec bit/symlink of every tracked path, survival of every untracked file that cannot collide with the target, and `git status` (no tracked change) are judged; every k-th case the equivalent git command is run on a twin and must satisfy the same judgement; non-trivial = op succeeded; distinct counts (worktree state, entry, whether cur==target)")
+	c.SetRule("all ordered pairs of 24 commits (quick: 15, without the second content of a and of d/g) over path a (absent/2 contents/empty/exec/symlink) and d (absent/file/dir with 2 contents: file<->dir swaps) x 7 pre-existing worktree states x 4 entry points; after a successful op: HEAD (symbolic target and commit), bytes/exec bit/symlink of every tracked path, survival of every untracked file that cannot collide with the target, and `git status` (no tracked change) are judged; every k-th case the equivalent git command is run on a twin and must satisfy the same judgement; non-trivial = op succeeded; distinct counts (worktree state, entry, whether cur==target)")
 	c.Assume("an untracked file is only required to survive when its path neither equals nor nests with a path of the target (git itself deletes obstructing untracked content on forced checkout); case-variant paths and submodule entries are not enumerated here (case-sensitive filesystem; gitlinks are covered by C26/C33)")
 
 	if v := hDevVec(); v != nil {
